@@ -7,7 +7,7 @@ use crate::gen::program::{ProgGen, ProgInfo};
 use crate::model::isa::*;
 use crate::model::program::*;
 use crate::model::refasm::{self, RefResult};
-use crate::model::expr::E;
+use crate::model::expr::{BinOp, E};
 use std::collections::HashMap;
 
 pub struct C02;
@@ -109,6 +109,269 @@ pub fn has_value_dependent_choice(p: &Program, ok: &sut::AsmOk) -> bool {
     false
 }
 
+// ---------------------------------------------------------------------------------------
+// part B: asm blocks over cascading instruction sets (the inner fixed-point loop of eval_asm.rs)
+
+fn e_mentions_dot(e: &E) -> bool {
+    match e {
+        E::Var(n) => n.starts_with('.'),
+        E::Un(_, a) => e_mentions_dot(a),
+        E::Bin(_, a, b) | E::SliceShort(a, b) => e_mentions_dot(a) || e_mentions_dot(b),
+        E::Tern(a, b, c) | E::Slice(a, b, c) => e_mentions_dot(a) || e_mentions_dot(b) || e_mentions_dot(c),
+        E::Call(_, args) | E::Block(args) => args.iter().any(e_mentions_dot),
+        _ => false,
+    }
+}
+
+fn item_is_scope_sensitive(it: &Item) -> bool {
+    match it {
+        Item::Label { dots, .. } => *dots > 0,
+        Item::Const { dots, e, .. } => *dots > 0 || e_mentions_dot(e),
+        Item::Instr(ins) => ins.ops.iter().any(|o| match &o.op {
+            IOp::Word(w) => w.starts_with('.'),
+            IOp::Expr(e) => e_mentions_dot(e),
+        }),
+        Item::Data { elems, .. } => elems.iter().any(e_mentions_dot),
+        Item::Res(e) | Item::Align(e) | Item::Addr(e) => e_mentions_dot(e),
+        _ => false,
+    }
+}
+
+pub struct BlockCase {
+    /// the hand-inlined program (block labels are the global labels bq0, bq1, ...)
+    pub inlined: Program,
+    /// item indices [a, b) of the inlined program that form the block (instructions and bq labels)
+    pub window: (usize, usize),
+    /// the same program with the window replaced by one macro call
+    pub macro_src: String,
+    pub nlabels: usize,
+}
+
+pub fn gen_block_case(t: &mut Tape) -> Option<BlockCase> {
+    let mut isa = IsaGen { size_static: false, asserts: true }.gen(t);
+    let directed = t.flip();
+    // directed template: the block stands at a known address (program start, or right behind an `#addr`)
+    let template: Option<u64> = if directed && t.flip() { Some(*t.pick(&[0u64, 0, 8, 16, 40, 100])) } else { None };
+    // two more families under their own mnemonics: one grows with the operand, one SHRINKS with it
+    // (a short form that is only valid for large values), so that sizes can move in opposite directions
+    {
+        let p = || E::Var("p0".into());
+        let ops = || vec![PatOp { wrap: Wrap::None, op: POp::Param { name: "p0".into(), ty: PType::Untyped } }];
+        let (k1, k2) = match template {
+            // thresholds a few bytes behind the start of the block: the two families then move in opposite
+            // directions while the block settles (an early label moves, a later one may stay)
+            Some(base) => (base + t.draw(3) as u64, base + 1 + t.draw(4) as u64),
+            None => (*t.pick(&[4u64, 8, 16, 32, 64]), *t.pick(&[4u64, 8, 16, 32, 64])),
+        };
+        let lit = crate::gen::expr::lit_of;
+        let short = |opc: u64, c: E| E::Block(vec![E::Call("assert".into(), vec![c]), crate::gen::isa::concat_all(vec![crate::gen::isa::sized_lit(opc, 4), E::SliceShort(Box::new(p()), Box::new(lit(4)))])]);
+        let long = |opc: u64, w: u64| crate::gen::isa::concat_all(vec![crate::gen::isa::sized_lit(opc, 4), E::SliceShort(Box::new(p()), Box::new(lit(w)))]);
+        let b0 = &mut isa.blocks[0].rules;
+        b0.push(Rule { mnemonic: "bgr".into(), ops: ops(), prod: short(0x1, E::Bin(BinOp::Lt, Box::new(p()), Box::new(lit(k1)))), size: 8 });
+        b0.push(Rule { mnemonic: "bgr".into(), ops: ops(), prod: long(0x2, 20), size: 24 });
+        b0.push(Rule { mnemonic: "bsh".into(), ops: ops(), prod: short(0x3, E::Bin(BinOp::Ge, Box::new(p()), Box::new(lit(k2)))), size: 8 });
+        b0.push(Rule { mnemonic: "bsh".into(), ops: ops(), prod: long(0x4, 20), size: 24 });
+    }
+    let (mut prog, _info) = ProgGen { max_items: 14, allow_banks: false, allow_faults: false, family_bias: true }.gen(t, isa);
+    // the block: either a run of the generated instructions, or the directed shape
+    //   bgr/bsh L0 ; L0: ; bsh/bgr L0|L1 ; L1: ; ...
+    let (a, mut b);
+    if directed {
+        let at = if template.is_some() { 0 } else { t.below(prog.items.len() + 1) };
+        match template {
+            Some(base) if base > 0 => prog.items.insert(at, Item::Addr(crate::gen::expr::lit_of(base))),
+            _ => prog.items.insert(at, Item::Align(crate::gen::expr::lit_of(8))),
+        }
+        a = at + 1;
+        let n = t.urange(2, 4);
+        for k in 0..n {
+            let mn = if t.flip() { "bgr" } else { "bsh" };
+            let target = format!("bq{}", t.below(2));
+            let e = if t.chance(1, 3) { E::Bin(BinOp::Add, Box::new(E::Var(target)), Box::new(crate::gen::expr::lit_of(t.draw(6) as u64))) } else { E::Var(target) };
+            prog.items.insert(a + k, Item::Instr(Instr { mnemonic: mn.into(), ops: vec![InsOp { wrap: Wrap::None, op: IOp::Expr(e) }] }));
+        }
+        b = a + n;
+    } else {
+        let runs: Vec<usize> = (0..prog.items.len()).filter(|&i| matches!(prog.items[i], Item::Instr(_))).collect();
+        if runs.is_empty() {
+            return None;
+        }
+        a = *t.pick(&runs);
+        b = a;
+        let want = t.urange(1, 4);
+        while b < prog.items.len() && b - a < want && matches!(prog.items[b], Item::Instr(_)) {
+            b += 1;
+        }
+        // retarget some expression operands to the block labels
+        for i in a..b {
+            if let Item::Instr(ins) = &mut prog.items[i] {
+                for o in ins.ops.iter_mut() {
+                    if matches!(o.op, IOp::Expr(_)) && t.flip() {
+                        o.op = IOp::Expr(E::Var(format!("bq{}", t.below(2))));
+                    }
+                }
+            }
+        }
+    }
+    // inlining bq labels as global labels must not re-parent what follows
+    for it in prog.items[a..].iter().skip(b - a) {
+        if matches!(it, Item::Label { dots: 0, .. }) {
+            break;
+        }
+        if item_is_scope_sensitive(it) {
+            return None;
+        }
+    }
+    if prog.items[a..b].iter().any(item_is_scope_sensitive) {
+        return None;
+    }
+    // both labels are declared somewhere in the window (positions a..=b)
+    let nlabels = 2;
+    let mut pos: Vec<usize> = (0..nlabels).map(|_| t.urange(0, b - a)).collect();
+    pos.sort();
+    for (k, p) in pos.iter().enumerate().rev() {
+        prog.items.insert(a + p, Item::Label { dots: 0, name: format!("bq{}", k) });
+    }
+    // labels were inserted from the back, so names may be out of order relative to positions: harmless
+    b += nlabels;
+    // macro program text
+    let mut src = isa_text(&prog.isa);
+    src.push_str("#ruledef\n{\n    blkq => asm\n    {\n");
+    for it in &prog.items[a..b] {
+        src.push_str("        ");
+        src.push_str(&item_text(it));
+        src.push('\n');
+    }
+    src.push_str("    }\n}\n");
+    for (i, it) in prog.items.iter().enumerate() {
+        if i == a {
+            src.push_str("blkq\n");
+        }
+        if i >= a && i < b {
+            continue;
+        }
+        src.push_str(&item_text(it));
+        src.push('\n');
+    }
+    if a == prog.items.len() {
+        src.push_str("blkq\n");
+    }
+    Some(BlockCase { inlined: prog, window: (a, b), macro_src: src, nlabels })
+}
+
+/// Certificate for a macro program: SOME assignment of sizes to the instructions inside the block, summing to
+/// the size the assembler gave the macro call, must make the hand-inlined program a consistent fixed point
+/// with exactly the emitted bits and symbols. None = certified (or outside the model: not judged).
+pub fn block_certificate(c: &BlockCase, ok: &sut::AsmOk) -> Option<(String, String)> {
+    let (a, b) = c.window;
+    let p = &c.inlined;
+    // spans of the macro program: one per label / instruction / data element outside the window, one for the call
+    let mut k = 0;
+    let mut sizes: HashMap<usize, usize> = HashMap::new();
+    let mut block_size = None;
+    for (i, it) in p.items.iter().enumerate() {
+        if i == a {
+            block_size = Some(ok.spans.get(k)?.size);
+            k += 1;
+        }
+        if i >= a && i < b {
+            continue;
+        }
+        match it {
+            Item::Label { .. } => k += 1,
+            Item::Instr(_) => {
+                sizes.insert(i, ok.spans.get(k)?.size);
+                k += 1;
+            }
+            Item::Data { elems, .. } => k += elems.len(),
+            _ => {}
+        }
+    }
+    if a == p.items.len() {
+        block_size = Some(ok.spans.get(k)?.size);
+        k += 1;
+    }
+    if k != ok.spans.len() {
+        return Some(("span-count".into(), format!("{} spans do not correspond to the macro program's items", ok.spans.len())));
+    }
+    let block_size = block_size?;
+    let inner: Vec<usize> = (a..b).filter(|&i| matches!(p.items[i], Item::Instr(_))).collect();
+    let cands: Vec<Vec<usize>> = inner
+        .iter()
+        .map(|&i| {
+            let Item::Instr(ins) = &p.items[i] else { unreachable!() };
+            let mut v: Vec<usize> = Vec::new();
+            for m in survivors(&p.isa, ins) {
+                v.push(match_size(&p.isa, &m));
+                // a production that is a conditional has the size of either arm
+                if let E::Tern(_, x, y) = &rule_of(&p.isa, &m).prod {
+                    for arm in [x, y] {
+                        if let Some(sz) = refasm::static_size(arm, &HashMap::new()) {
+                            v.push(sz);
+                        }
+                    }
+                }
+            }
+            v.sort();
+            v.dedup();
+            v
+        })
+        .collect();
+    if cands.iter().any(|c| c.is_empty()) {
+        return None; // an inner instruction has no syntactic match in the model: not judged
+    }
+    let mut idx = vec![0usize; inner.len()];
+    let mut tried = 0;
+    let mut last_reject = String::new();
+    loop {
+        let total: usize = idx.iter().enumerate().map(|(j, &x)| cands[j][x]).sum();
+        if total == block_size {
+            tried += 1;
+            let mut s2 = sizes.clone();
+            for (j, &i) in inner.iter().enumerate() {
+                s2.insert(i, cands[j][idx[j]]);
+            }
+            match refasm::assemble_forced(p, Some(&s2)) {
+                RefResult::Invalid(_) => return None,
+                RefResult::Ok(mut m) => {
+                    m.symbols.retain(|(n, _)| !n.starts_with("bq"));
+                    match crate::props::c01::compare(&RefResult::Ok(m), &AsmOutcome::Ok(ok.clone())) {
+                        None => return None,
+                        Some((cl, d)) => last_reject = format!("{}: {}", cl, d),
+                    }
+                }
+                // a block label off an address-unit boundary: a top-level label must be aligned, what a block label
+                // does there is not fixed by the statement, so such cases are not judged
+                RefResult::Reject { class: "unaligned-label", .. } => return None,
+                RefResult::Reject { item, class, detail } => last_reject = format!("item {} {}: {}", item, class, detail),
+            }
+        }
+        // next combination
+        let mut j = 0;
+        loop {
+            if j == idx.len() {
+                return Some((
+                    "success-is-not-a-fixed-point:asm-block".into(),
+                    format!(
+                        "assembler succeeded ({} bits {}; the macro call occupies {} bits) but none of the {} size assignments of the block's instructions makes the inlined program self-consistent with these bits (last: {})",
+                        ok.bits.len(),
+                        sut::bits_hex(&ok.bits),
+                        block_size,
+                        tried,
+                        last_reject
+                    ),
+                ));
+            }
+            idx[j] += 1;
+            if idx[j] < cands[j].len() {
+                break;
+            }
+            idx[j] = 0;
+            j += 1;
+        }
+    }
+}
+
 impl Property for C02 {
     fn id(&self) -> &'static str {
         "C02"
@@ -127,7 +390,7 @@ impl Property for C02 {
         vec!["spans are recorded one per label, instruction and data element in source order (checked: a different count is reported)".into()]
     }
     fn tape_len(&self, _t: Tier) -> usize {
-        460
+        900
     }
     fn fuzz_runs(&self, _tier: Tier) -> u64 {
         40_000
@@ -181,6 +444,46 @@ impl Property for C02 {
             }
         }
         ctx.label(if any_ok { "some-success" } else { "never-succeeds" });
+        // part B uses the rest of the tape (an exhausted tape skips it, so older replay tapes keep their meaning)
+        if t.chance(1, 2) {
+            if let Some(c) = gen_block_case(t) {
+                ctx.label("block:case");
+                let (inl_src, _) = render(&c.inlined);
+                ctx.add_hash(&c.macro_src);
+                for budget in [10usize, *t.pick(BUDGETS)] {
+                    for (st, mt) in [(true, true), (false, false)] {
+                        let o = sut::assemble_src(&c.macro_src, &Opts { max_iterations: budget, opt_static: st, opt_matcher: mt, defines: vec![] });
+                        ctx.evals += 1;
+                        match &o {
+                            AsmOutcome::Ok(ok) => {
+                                ctx.label("block:ok");
+                                if ok.iterations >= 2 {
+                                    ctx.nontrivial = true;
+                                }
+                                if let Some((clause, detail)) = block_certificate(&c, ok) {
+                                    ctx.want_render = true;
+                                    ctx.render(|| serde_json::json!({"macro_program": c.macro_src, "inlined_program": inl_src, "budget": budget, "opt_static": st, "opt_matcher": mt}));
+                                    return Verdict::fail(clause, format!("budget {} static={} matcher={}: {}", budget, st, mt, detail));
+                                }
+                            }
+                            AsmOutcome::Err(_) => ctx.label("block:error"),
+                            AsmOutcome::Panic(p) => {
+                                ctx.want_render = true;
+                                ctx.render(|| serde_json::json!({"macro_program": c.macro_src, "budget": budget}));
+                                return Verdict::fail(format!("panic {}", sut::panic_site(p)), p.clone());
+                            }
+                            AsmOutcome::Inconsistent { detail, .. } => {
+                                ctx.want_render = true;
+                                ctx.render(|| serde_json::json!({"macro_program": c.macro_src, "budget": budget}));
+                                return Verdict::fail("inconsistent-result", detail.clone());
+                            }
+                        }
+                    }
+                }
+            } else {
+                ctx.label("block:skipped-scope-sensitive");
+            }
+        }
         Verdict::Pass
     }
 }
